@@ -392,6 +392,10 @@ class Interp:
         if node.cause is not None:
             cv = self.eval(st, node.cause)
             v.cause = cv
+        v.tag.setdefault("held", list(st.held))
+        v.tag.setdefault("shield", st.shield)
+        v.tag.setdefault("trace_len", len(st.trace))
+        v.tag.setdefault("raised_at", self.site(node))
         st.log.append(f"raise {v.cls} @{node.lineno}")
         raise PyRaise(v)
 
